@@ -369,6 +369,9 @@ var blockers = []struct {
 	{"heredoc-then-read", "cat <<EOF\nhi\nEOF\nread x", true},
 	{"fn-recursion", "r() { r; }; r", true},
 	{"select-like", "while read -r a b; do echo $a; done", true},
+	{"cstyle-exit", "for ((;;)); do exit; done", true},
+	{"cstyle-return", "cf() { for ((;;)); do return; done; }; cf", true},
+	{"cstyle-break2", "for ((;;)); do for ((;;)); do break 2; done; done; sleep inf", true},
 	{"mapfile", "mapfile -t arr", true},
 	{"read-delim", "read -d : x", true},
 	{"read-array", "read -a arr", true},
@@ -417,7 +420,7 @@ var readsStdin = map[string]bool{"mapfile": true, "read-delim": true, "read-arra
 func casesC31(c *vc.Ctx) []Case {
 	c.Level = "fault_enumeration"
 	K := vc.Pick(c, 20, 60)
-	c.Rule = fmt.Sprintf("programs = 29 blocking/non-terminating/finite shapes x 21 wrappers (quick: 12), each also as the second Run of a Runner whose first Run used another context (directly and through a function defined in the first Run) (function, subshell, group, pipeline side, command substitution, background+wait, condition, eval, followed by more, EXIT trap, and-or, case, loop body) with standard input an open pipe nobody writes to; fault = the cancellation of Run's context, injected as a scheduler thread at EVERY scheduling point up to point %d (forced there), crossed with every interleaving of the other threads up to the preemption bound; oracle: after the cancel step Run returns within %d further scheduling points (no deadlock = no enabled thread, no livelock = horizon), with a non-nil error when the program cannot finish on its own; distinct = (program, cancel point, outcome)", K, 80)
+	c.Rule = fmt.Sprintf("programs = 32 blocking/non-terminating/finite shapes x 21 wrappers (quick: 12), each also as the second Run of a Runner whose first Run used another context (directly and through a function defined in the first Run) (function, subshell, group, pipeline side, command substitution, background+wait, condition, eval, followed by more, EXIT trap, and-or, case, loop body) with standard input an open pipe nobody writes to; fault = the cancellation of Run's context, injected as a scheduler thread at EVERY scheduling point up to point %d (forced there), crossed with every interleaving of the other threads up to the preemption bound; oracle: after the cancel step Run returns within %d further scheduling points (no deadlock = no enabled thread, no livelock = horizon), with a non-nil error when the program cannot finish on its own; distinct = (program, cancel point, outcome)", K, 80)
 	c.Assumptions = []string{
 		"time is measured in scheduling points of the controlled scheduler, not seconds; a thread that runs 120 s without reaching a scheduling point is reported as a failure of the harness run",
 		"external commands are in-process stand-ins: `sleep inf` blocks until the context is done (like a child killed by DefaultExecHandler), cat copies stdin",
